@@ -1411,12 +1411,16 @@ def layout_battery():
         b.append(sc(name, base, layout_render(lines, eol="\r\n"), "CR before every LF"))
         b.append(sc(name, base, layout_render(lines, comment=" # note"), "comment appended to every line"))
         b.append(sc(name, base, layout_render(lines, comment="#x#y"), "comment appended without a blank"))
+        # fifth round: comments full of multi-byte characters (byte offsets run ahead of character counts)
+        b.append(sc(name, base, layout_render(lines, comment=" # " + "\u2192\u00fc\u20ac" * 8), "multi-byte comment appended to every line"))
+        b.append(sc(name, base, layout_render(lines, comment="#" + "\U0001F600" * 10), "four-byte characters in appended comments"))
         b.append(sc(name, base, layout_render(lines, last_eol=False), "no newline at the end")
                  if name in ("literals", "calls") else
                  sc(name, base, layout_render(lines, comment="\t#"), "empty comment appended"))
         # lines inserted after the header: blank, blank-with-spaces, single comment, comment block
         for what, ins in (("blank lines", ["", ""]), ("whitespace-only line", [" \t "]), ("comment line", ["# one"]),
-                          ("comment block", ["# one", "  # two", "#three"]), ("comment then blank", ["#c", "", "# d"])):
+                          ("comment block", ["# one", "  # two", "#three"]), ("comment then blank", ["#c", "", "# d"]),
+                          ("multi-byte comment block", ["# " + "\u2192\u00fc\u20ac" * 10, "#" + "\U0001F600" * 12])):
             for at in (range(len(lines) + 1) if what in ("blank lines", "comment line") else sorted(set((0, 1, len(lines) // 2, len(lines))))):
                 new = list(lines[:at]) + list(ins) + list(lines[at:])
                 # base line numbers: header is line 1, program line k (0-based) is line k + 2
